@@ -781,11 +781,11 @@ func runFuzz(id string, ft fuzzTarget, replayDir, bin string) (map[string]any, [
 	defer os.RemoveAll(cache)
 	work, _ := os.MkdirTemp("", "vfuzzout-")
 	defer os.RemoveAll(work)
-	args := []string{"test", "-vet=off", "-run", "^$", "-fuzz", "^" + ft.Name + "$", "-fuzztime", ft.Duration.String(),
-		"-test.fuzzcachedir", cache, "-parallel", "14"}
+	args := []string{"test", "-vet=off"}
 	mf, _ := modfileArgs()
-	args = append(args[:2], append(mf, args[2:]...)...)
-	args = append(args, "./props/"+strings.ToLower(id))
+	args = append(args, mf...)
+	args = append(args, "-run", "^$", "-fuzz", "^"+ft.Name+"$", "-fuzztime", ft.Duration.String(), "-parallel", "14",
+		"./props/"+strings.ToLower(id), "-test.fuzzcachedir", cache)
 	ctx, cancel := context.WithTimeout(context.Background(), ft.Duration+5*time.Minute)
 	defer cancel()
 	cmd := exec.CommandContext(ctx, "go", args...)
